@@ -18,7 +18,7 @@ LEVEL_TEXT = (
     'computation.')
 
 FLOORS = {'C02-R1': 16, 'C02-R2': 12, 'C02-R3': 9, 'C02-R4': 4, 'C02-R5': 10, 'C01-R1': 3, 'C01-R2': 3,
-          'C01-R3': 12, 'C01-R4': 5, 'C01-R5': 3, 'C01-R7': 5, 'C01-R9': 3, 'C01-R10': 4}
+          'C01-R3': 12, 'C01-R4': 8, 'C01-R5': 3, 'C01-R7': 5, 'C01-R9': 3, 'C01-R10': 4, 'C10-R1': 8, 'C10-R3': 5}
 
 
 def r1_polarity(ctx, cb):
@@ -350,3 +350,13 @@ def run(ctx):
     # the iff presupposes that every reachable in-boundary state is evaluated: C01's coverage rules
     import c01
     c01.coverage_rules(ctx, F)
+    # "DFS with symmetry" is one of the quantified strategies: its verdicts are exact only if the
+    # representative is one consistent permutation of the state and keys the visited set (C10)
+    import c10
+    ctx.doc('C10-R1', 'representative(): every field transformed under one plan, per-actor vectors reindexed, '
+                      'nothing modified afterwards')
+    ctx.doc('C10-R3', 'the representative is only fingerprinted; that fingerprint keys the visited set; the path '
+                      'continues with the original state')
+    with ctx.rule('C10-R1', 'representative'):
+        c10.r1_representative(ctx, F)
+    c10.r3_visited_on_representative(ctx, F)
